@@ -919,7 +919,7 @@ func (fx *fnExec) run() (err error) {
 			fx.usedAnchors[h] = true
 			v := pre.eval(h.Expr)
 			fx.asserts = append(fx.asserts, assertion{-1, "(assert " + v.term + ")"})
-			fx.assumptionsUsed[fmt.Sprintf("hypothesis [%s] of %s (side condition of the property statement): %s", h.Label, fx.g.relKey(fx.fn), h.Src)] = true
+			fx.assumptionsUsed[hypothesisText(h.Label, fx.g.relKey(fx.fn), h.Src)] = true
 		}
 	}
 	// modifies locations at entry
